@@ -407,8 +407,16 @@ class DatesWorld(World):
         f = m.f or rng.choice(self.cfg["freqs"])
         near = [x for x in (m.a, m.b) if isinstance(x, int)]
         a = (near[0] + rng.randint(-12, 12)) if near else self._rand_serial(rng, f)
-        return {"op": "resolve", "out": [self._name("s")], "args": {"s": s, "f": f, "cs": a, "ce": a + rng.randint(0, 9),
+        step = {"op": "resolve", "out": [self._name("s")], "args": {"s": s, "f": f, "cs": a, "ce": a + rng.randint(0, 9),
                                                                    "ctx": rng.choice(["context", "series"])}}
+        if rng.random() < 0.3:
+            # another live span as the context, open-ended ones included: what is open in the context stays open in the
+            # result (offsets add up) and is settled by a later resolution against a closed context
+            o = self._pick_span(rng, actor, lambda om: om.f is None or m.f is None or om.f == m.f)
+            if o is not None and o != s:
+                step["args"]["ctx"] = "span"
+                step["args"]["o"] = o
+        return step
 
     def _gen_resolve_mix(self, actor, rng):
         """A span with one concrete and one open end point resolved against a context of another frequency: must be rejected."""
@@ -889,6 +897,24 @@ class DatesWorld(World):
         if m.f is not None and m.f != a["f"]:
             f = m.f
         cs, ce = a["cs"], a["ce"]
+        if a["ctx"] == "span":
+            o, om = self.spans[a["o"]]
+            if m.f is not None and om.f is not None and m.f != om.f:
+                return "skipped"
+
+            def via(x):
+                if isinstance(x, (tuple, list)):
+                    return end_shift(om.a if x[1] == "start_date" else om.b, x[2])
+                return x
+            nm = SpanM(m.f or om.f, via(m.a), via(m.b), m.step)
+            if not nm.contextual and len(nm.rng()) > MAX_SPAN:
+                return "skipped"        # end points from unrelated corners of the calendar: a span of millions of periods
+            pred = ("contextual" if m.contextual else "concrete") + (",open_context" if om.contextual else "")
+            res = self._guard("resolve.span", pred, lambda: real.resolve(o))
+            self._after("resolve.span", pred, new=(step["out"][0], res, nm), step=step)
+            if m.contextual and om.contextual:
+                self.probes["open_span_resolved_against_open_context"] += 1
+            return "ok"
         if a["ctx"] == "context":
             from irispie.dates import ResolutionContext
             ctx = ResolutionContext(P(f, cs), P(f, ce))
